@@ -58,6 +58,9 @@ type insert struct {
 	metadata bytemap.ByteMap
 	offset   wal.Offset
 	source   int
+	// further values of the same point (array values), applied together with
+	// vals: a flush records offset as done, so it must not come between them
+	more []encoding.TSParams
 }
 
 type rowStore struct {
@@ -300,7 +303,10 @@ func (rs *rowStore) processInserts(ms *memstore, stop <-chan interface{}) {
 			ms.offsetsBySource[insert.source] = insert.offset
 			ms.offsetChanged = true
 			if insert.key != nil {
-				rs.safeUpdate(ms, insert)
+				rs.safeUpdate(ms, insert, insert.vals)
+				for _, vals := range insert.more {
+					rs.safeUpdate(ms, insert, vals)
+				}
 				rs.t.updateHighWaterMarkMemory(insert.vals.TimeInt())
 			}
 			rs.mx.Unlock()
@@ -350,13 +356,13 @@ func (rs *rowStore) processInserts(ms *memstore, stop <-chan interface{}) {
 // evaluated on client-supplied dimensions here (e.g. the condition of an IF
 // field); a panic in that evaluation must not take down the row store, and
 // with it the whole process, so the offending point is logged and skipped.
-func (rs *rowStore) safeUpdate(ms *memstore, insert *insert) {
+func (rs *rowStore) safeUpdate(ms *memstore, insert *insert, vals encoding.TSParams) {
 	defer func() {
 		if p := recover(); p != nil {
 			rs.t.log.Errorf("Panic on updating memstore, skipping point: %v", p)
 		}
 	}()
-	ms.tree.Update(insert.key, nil, insert.vals, insert.metadata)
+	ms.tree.Update(insert.key, nil, vals, insert.metadata)
 }
 
 func (rs *rowStore) iterate(ctx context.Context, outFields core.Fields, includeMemStore bool, onValue func(bytemap.ByteMap, []encoding.Sequence) (more bool, err error)) (common.OffsetsBySource, error) {
